@@ -16,5 +16,5 @@ CONSTANTS
   Lifts = {0,2}
   RhoS = {0,24}
 SPECIFICATION Spec
-INVARIANTS AdditiveSumsToSecret RefusedIffUnqualified Progress L17NoWrap ECDSAOut
-CHECK_DEADLOCK FALSE
+INVARIANTS AdditiveSumsToSecret RefusedIffUnqualified L17NoWrap ECDSAOut
+CHECK_DEADLOCK TRUE
